@@ -120,7 +120,7 @@ class Repo:
                         with open(path, "r", encoding="utf-8") as fh:
                             src = fh.read()
                     from .specialise import specialise, inline_new_constants
-                    tree00, new_consts = inline_new_constants(ast.parse(src, filename=path), rel)
+                    tree00, new_consts = inline_new_constants(ast.parse(src, filename=path), rel, self._foreign_consts.get(rel))
                     tree0, specialised = specialise(tree00, rel, self._used_kws, self._max_pos, self._spec_ok)
                     specialised = list(specialised) + [("<module>", c_, "named constant read as its literal") for c_ in new_consts]
                     tree = normalise(tree0, externs.get(rel))
@@ -148,7 +148,7 @@ class Repo:
         """({module rel: {local name: signature of the package function / class it imports}}, digest of all signatures).
         A first, cheap pass (ast.parse only, cached by content): normal form N22 needs the parameter order of callees defined in other modules."""
         from .normal import module_signatures
-        sigs, imps, usage, newp = {}, {}, {}, {}
+        sigs, imps, usage, newp, newc = {}, {}, {}, {}, {}
         for dirpath, dirnames, filenames in os.walk(pkg):
             dirnames[:] = sorted(d for d in dirnames if d != "__pycache__")
             for fn in sorted(filenames):
@@ -172,12 +172,13 @@ class Repo:
                                 mod = ("." * st.level) + (st.module or "")
                                 for a in st.names:
                                     im[a.asname or a.name] = f"{mod}.{a.name}"
-                        from .specialise import call_usage, new_params
-                        hit = (module_signatures(t), im, call_usage(t), new_params(t, rel))
+                        from .specialise import call_usage, new_params, new_module_constants
+                        hit = (module_signatures(t), im, call_usage(t), new_params(t, rel), new_module_constants(t, rel))
                         _SIG_CACHE[(rel, key)] = hit
                     sigs[rel], imps[rel] = hit[0], hit[1]
                     usage[rel] = hit[2]
                     newp[rel] = hit[3]
+                    newc[rel] = hit[4]
                 except (SyntaxError, UnicodeDecodeError, OSError):
                     continue
         rels = set(sigs)
@@ -202,6 +203,7 @@ class Repo:
                     return cand, fname
             return None, None
         externs = {}
+        self._foreign_consts = {}
         for rel, im in imps.items():
             ex = {}
             for local, org in im.items():
@@ -212,6 +214,9 @@ class Repo:
                     target, name = resolve(target, imps[target][name])
                     hops += 1
                 if target is None or target == rel:
+                    continue
+                if name in newc.get(target, {}):
+                    self._foreign_consts.setdefault(rel, {})[local] = newc[target][name]
                     continue
                 funcs, classes = sigs[target]
                 if name in funcs:
@@ -239,6 +244,8 @@ class Repo:
         self._spec_ok = options_safe_to_fold(all_new, self._used_kws, kw_values)
         self._spec_digest = {rel_: hashlib.sha1(repr(sorted((nm_, p_, (nm_, p_) in self._spec_ok, self._max_pos.get(nm_, 0))
                                                                 for nm_, p_ in ps_)).encode()).hexdigest() for rel_, ps_ in newp.items() if ps_}
+        for rel_, fc_ in self._foreign_consts.items():
+            self._spec_digest[rel_] = hashlib.sha1((self._spec_digest.get(rel_, "") + repr(sorted(fc_.items()))).encode()).hexdigest()
         return externs, digest
 
     def _cross_module_helpers(self) -> None:
@@ -258,8 +265,8 @@ class Repo:
             if not foreign:
                 continue
             try:
-                from .specialise import specialise as _spec
-                tree = normalise(_spec(ast.parse(mi.src, filename=mi.path), rel, self._used_kws, self._max_pos, self._spec_ok)[0], self._externs.get(rel))
+                from .specialise import specialise as _spec, inline_new_constants as _inc
+                tree = normalise(_spec(_inc(ast.parse(mi.src, filename=mi.path), rel, self._foreign_consts.get(rel))[0], rel, self._used_kws, self._max_pos, self._spec_ok)[0], self._externs.get(rel))
                 tree, inlined = _inl(tree, rel, foreign)
                 if inlined:
                     tree = normalise(tree, self._externs.get(rel))
